@@ -58,6 +58,7 @@ InitMachine(tree, inputs, flags) ==
      out |-> <<>>,
      printed |-> FALSE,
      rv |-> VI(0),
+     heap |-> <<>>,            \* lazily produced lists whose items are not computed yet (DeferredMap)
      status |-> "run",
      why |-> "",
      cfg |-> Cfg(flags),
@@ -170,7 +171,10 @@ LambdaWrap(op, m) ==
 CvalOf(args) == IF Len(args) = 1 THEN args[1] ELSE VL(args)
 
 (* enter a lambda body with operand stack `args` *)
+RECURSIVE ZIn(_)
+ZIn(v) == IsZ(v) \/ (IsL(v) /\ \E k \in 1..Len(v.l) : ZIn(v.l[k]))
 EnterLambda(m, fv, args, kont) ==
+    IF \E k \in 1..Len(args) : ZIn(args[k]) THEN Undef(m, "lazy-value-as-argument") ELSE
     [m EXCEPT
        !.acts = Append(@, Act(args, "lambda", Assigned(fv.f.body), fv)),
        !.fstk = Append(@, fv),
@@ -250,8 +254,40 @@ CallFromRegistered(m, fv, kont) ==
              r == PopNAt(m, RegisteredAct(m), n)
          IN EnterLambda(r[2], fv, r[1], kont)
 
+ZOpen == <<10216, 32>>
+ZClose == <<32, 10217>>
+ZSep == <<32, 124, 32>>
+RECURSIVE JoinSep(_)
+JoinSep(vs) == IF vs = <<>> THEN <<>> ELSE IF Len(vs) = 1 THEN Str(vs[1]) ELSE Str(vs[1]) \o ZSep \o JoinSep(Tail(vs))
+RECURSIVE ZJoinRepr(_)
+ZJoinRepr(vs) == IF vs = <<>> THEN <<>> ELSE IF Len(vs) = 1 THEN Repr(vs[1]) ELSE Repr(vs[1]) \o ZSep \o ZJoinRepr(Tail(vs))
+
+(* deep_copy of a lazy list is a NEW lazy list that reads through the original (CopyReadsThrough): whatever it
+   pulls is produced -- once -- by the original and kept there; the copy keeps its own account of what it has
+   pulled, which is what decides how its items are written *)
+RECURSIVE RootOf(_, _)
+RootOf(m, id) == IF m.heap[id].op = "copy" THEN RootOf(m, m.heap[id].src) ELSE id
+RECURSIVE ChainOf(_, _)
+ChainOf(m, id) == IF m.heap[id].op = "copy" THEN {id} \cup ChainOf(m, m.heap[id].src) ELSE {id}
+
+(* LazyList.output: the items already produced are written as vy_print writes them (texts unquoted), the
+   others are produced one by one -- their bodies run NOW, in the state of now -- and written as vy_repr
+   writes them.  The item list is registered as a stack meanwhile. *)
 PrintVal(m, v, end, kont) ==
     IF IsF(v) THEN CallFromRegistered([m EXCEPT !.printed = TRUE], v, <<[k |-> "k_print"]>> \o kont)
+    ELSE IF IsZ(v)
+    THEN LET c == m.heap[v.z]
+             r == RootOf(m, v.z)
+             rc == m.heap[r]
+         IN IF rc.state = "busy" THEN Undef(m, "lazy-list-printed-while-it-is-produced")
+            ELSE IF c.state = "done"       \* this very object has pulled everything before
+            THEN PushCtl([m EXCEPT !.out = @ \o ZOpen \o JoinSep(rc.acc) \o ZClose \o end, !.printed = TRUE], kont)
+            ELSE IF rc.state = "done"      \* a copy that has pulled nothing yet: the items are there, new to the copy
+            THEN PushCtl([m EXCEPT !.out = @ \o ZOpen \o ZJoinRepr(rc.acc) \o ZClose \o end, !.printed = TRUE,
+                                   !.heap = [k \in 1..Len(@) |-> IF k \in ChainOf(m, v.z) THEN [@[k] EXCEPT !.state = "done"] ELSE @[k]]],
+                         kont)
+            ELSE PushCtl([m EXCEPT !.out = @ \o ZOpen, !.printed = TRUE, !.nstk = @ + 1, !.heap[r].state = "busy"],
+                         <<[rc EXCEPT !.k = "hof", !.zid = r, !.emit = TRUE, !.end = end, !.also = ChainOf(m, v.z)]>> \o kont)
     ELSE IF ~Printable(v) THEN Undef(m, "print-of-function")
     ELSE PushCtl([m EXCEPT !.out = @ \o Str(v) \o end, !.printed = TRUE], kont)
 
@@ -273,6 +309,14 @@ IterRange(m, v) ==
     ELSE IF IsI(v) /\ v.i <= 200 THEN RangeSeq(m.cfg.rstart, v.i + m.cfg.rend - 1)
     ELSE <<UNDEF("iterable")>>
 IterOK(m, v) == IsL(v) \/ (IsI(v) /\ v.i <= 200)
+
+(* what a reduction / cumulative reduction walks over (helpers.iterable without a number type): the items of a  *)
+(* list, the characters of a text, the decimal digits of a non-negative integer                                *)
+FoldOK(v) == IsL(v) \/ IsS(v) \/ (IsI(v) /\ v.i >= 0)
+FoldItems(v) ==
+    IF IsL(v) THEN v.l
+    ELSE IF IsS(v) THEN [k \in 1..Len(v.s) |-> VS(<<v.s[k]>>)]
+    ELSE LET t == Str(v) IN [k \in 1..Len(t) |-> VI(t[k] - 48)]
 
 ---------------------------------------------------------------------------
 (* elements                                                                *)
@@ -303,7 +347,10 @@ LazyOps == {"map", "filter", "scan"}
 
 Hof(op, fn, items, pre, post) ==
     [k |-> "hof", op |-> op, fn |-> fn, rest |-> items, acc |-> <<>>, cur |-> VI(0), keys |-> <<>>,
-     first |-> TRUE, pre |-> pre, post |-> post]
+     first |-> TRUE, pre |-> pre, post |-> post,
+     lz |-> FALSE, zid |-> 0, emit |-> FALSE, end |-> <<>>, state |-> "none",      \* (a heap cell is such a record)
+     src |-> 0, also |-> {}]
+CopyCell(id) == [Hof("copy", NoFn, <<>>, <<>>, <<>>) EXCEPT !.lz = TRUE, !.state = "new", !.src = id]
 
 (* M F ṡ R with one function argument: <<fn, other>> or none *)
 FnAndOther(lhs, rhs) ==
@@ -341,7 +388,11 @@ Elem(m0, name) ==      \* m0: the element item already removed from ctl
       \* over: the entry under the top once more; with fewer than two entries it READS an input (implicitly)
       [] name = "over" -> IF Len(Stk(m0)) > 1 THEN Push(m0, Stk(m0)[Len(Stk(m0)) - 1])
                           ELSE LET r == ImplicitInput(m0) IN Push(r[2], r[1])
-      [] name = "dup" -> LET p == Pop1(m0) IN Push(Push(p[2], p[1]), p[1])
+      [] name = "dup" -> LET p == Pop1(m0)
+                         IN IF IsZ(p[1])
+                            THEN \* stack.append(deep_copy(top)); stack.append(top): the copy lies BELOW the original
+                                 Push(Push([p[2] EXCEPT !.heap = Append(@, CopyCell(p[1].z))], VZ(Len(m0.heap) + 1)), p[1])
+                            ELSE Push(Push(p[2], p[1]), p[1])
       [] name = "trip" -> LET p == Pop1(m0) IN Push(Push(Push(p[2], p[1]), p[1]), p[1])
       [] name = "pop" -> Pop1(m0)[2]
       [] name = "swap" -> LET p == PopN(m0, 2) IN Push(Push(p[2], p[1][1]), p[1][2])
@@ -377,10 +428,11 @@ Elem(m0, name) ==      \* m0: the element item already removed from ctl
                fo == FnAndOther(p[1][2], p[1][1])
                m1 == p[2]
            IN IF ~fo[3] THEN Undef(m0, "higher-order-without-function")
-              ELSE IF name = "reduce" /\ ~IsL(fo[2]) THEN Undef(m0, "reduce-of-scalar")
+              ELSE IF name = "reduce" /\ ~FoldOK(fo[2]) THEN Undef(m0, "reduce-of-negative-number")
               ELSE IF name = "sortby" /\ ~IsL(fo[2]) THEN Undef(m0, "sort-of-scalar")
-              ELSE IF ~IterOK(m1, fo[2]) THEN Undef(m0, "iterable")
-              ELSE LET items == IF name \in {"map", "filter"} THEN IterRange(m1, fo[2]) ELSE fo[2].l
+              ELSE IF name \in {"map", "filter"} /\ ~IterOK(m1, fo[2]) THEN Undef(m0, "iterable")
+              ELSE LET items == IF name \in {"map", "filter"} THEN IterRange(m1, fo[2])
+                                ELSE IF name = "reduce" THEN FoldItems(fo[2]) ELSE fo[2].l
                    IN PushCtl(m1, <<Hof(IF name = "reduce" THEN "fold" ELSE name, fo[1], items, <<>>, <<>>)>>)
       [] OTHER -> Undef(m0, "element-outside-core")
 
@@ -394,9 +446,20 @@ SortByKeys(items, keys) ==
     IN [k \in 1..Len(items) |-> r[k].v]
 
 HofStep(m0, h) ==      \* h is the "hof" item (already removed from ctl)
-    IF h.op \in LazyOps /\ h.acc = <<>> /\ h.first /\ ~PureNodes(h.fn.f.body) THEN Undef(m0, "impure-lazy-lambda")
+    IF h.op \in LazyOps /\ h.acc = <<>> /\ h.first /\ ~h.lz /\ ~PureNodes(h.fn.f.body)
+    THEN \* DeferredMap: nothing is computed now; the value is a reference to a new heap cell.  (The model resolves
+         \* variables along the activations that are live when the body runs, the implementation along the scopes the
+         \* lambda was written in: cells are only made where no live activation has variables of its own.)
+         IF h.op \in {"map", "filter"} /\ \A k \in 1..Len(m0.acts) : m0.acts[k].lnames = {}
+         THEN Push([m0 EXCEPT !.heap = Append(@, [h EXCEPT !.lz = TRUE, !.state = "new"])], VZ(Len(m0.heap) + 1))
+         ELSE Undef(m0, "impure-lazy-lambda")
     ELSE IF h.rest = <<>>
-    THEN CASE h.op \in {"map", "filter", "scan"} -> Push(m0, VL(h.acc))
+    THEN CASE h.lz ->      \* LazyList.output: the source is exhausted -- close the bracket, unregister the item list
+                [m0 EXCEPT !.heap = [k \in 1..Len(@) |-> IF k = h.zid THEN [@[k] EXCEPT !.state = "done", !.acc = h.acc]
+                                                          ELSE IF k \in h.also THEN [@[k] EXCEPT !.state = "done"] ELSE @[k]],
+                           !.out = IF h.emit THEN @ \o ZClose \o h.end ELSE @,
+                           !.nstk = @ - 1]
+           [] h.op \in {"map", "filter", "scan"} -> Push(m0, VL(h.acc))
            [] h.op = "sortby" ->
                 IF AllInts(h.keys) THEN Push(m0, VL(SortByKeys(h.acc, h.keys)))
                 ELSE Undef(m0, "sort-keys-not-integers")
@@ -415,9 +478,17 @@ HofStep(m0, h) ==      \* h is the "hof" item (already removed from ctl)
 HofK(m0, h) ==         \* the call returned m0.rv
     LET r == m0.rv
         back == [h EXCEPT !.k = "hof"]
-    IN CASE h.op = "map" -> PushCtl(m0, <<[back EXCEPT !.acc = Append(h.acc, r)]>>)
+        \* LazyList.output: each new item is written as it arrives -- after whatever its body printed --, the
+        \* separator after the NEXT item has been produced and before it is written
+        item == IF h.op = "map" THEN r ELSE h.cur
+        got == h.op = "map" \/ PyTruthy(r)
+        m1 == IF h.lz /\ h.emit /\ got
+              THEN [m0 EXCEPT !.out = @ \o (IF h.acc # <<>> THEN ZSep ELSE <<>>) \o Repr(item)]
+              ELSE m0
+    IN IF h.lz /\ got /\ ~Printable(item) THEN Undef(m0, "lazy-item-not-plain") ELSE
+       CASE h.op = "map" -> PushCtl(m1, <<[back EXCEPT !.acc = Append(h.acc, r)]>>)
          [] h.op = "filter" ->
-              PushCtl(m0, <<[back EXCEPT !.acc = IF PyTruthy(r) THEN Append(h.acc, h.cur) ELSE h.acc]>>)
+              PushCtl(m1, <<[back EXCEPT !.acc = IF PyTruthy(r) THEN Append(h.acc, h.cur) ELSE h.acc]>>)
          [] h.op = "sortby" ->
               PushCtl(m0, <<[back EXCEPT !.acc = Append(h.acc, h.cur), !.keys = Append(h.keys, r)]>>)
          [] h.op = "fold" -> PushCtl(m0, <<[back EXCEPT !.cur = r]>>)
@@ -532,9 +603,8 @@ ModStep(m0, n) ==
                                    calls |-> <<Call1(fA, RevSeq(rA[1])), Call1(fB, RevSeq(rB[1]))>>]>>)
          [] c \in {m_fhook, m_dtail} ->
               LET p == Pop1(m0)
-              IN IF ~IsL(p[1]) THEN Undef(m0, "reduce-of-scalar")
-                 ELSE IF c = m_dtail /\ p[1].l = <<>> THEN Undef(m0, "scan-of-empty")
-                 ELSE PushCtl(p[2], <<Hof(IF c = m_fhook THEN "fold" ELSE "scan", fA, p[1].l, <<>>, <<>>)>>)
+              IN IF ~FoldOK(p[1]) THEN Undef(m0, "reduce-of-negative-number")
+                 ELSE PushCtl(p[2], <<Hof(IF c = m_fhook THEN "fold" ELSE "scan", fA, FoldItems(p[1]), <<>>, <<>>)>>)
          [] c = m_sz ->
               LET p == Pop1(m0)
               IN IF CondTrue(p[1], m0.cfg.tflag) THEN CallFromStack(p[2], fA, <<[k |-> "k_push"]>>) ELSE p[2]
@@ -600,7 +670,22 @@ NodeStep(m0, n) ==
 ---------------------------------------------------------------------------
 (* continuation items                                                      *)
 
+(* a reference to a lazily produced list may be moved, copied (the copy reads through the original: the
+   same cell), dropped and printed; anything else that could look into it is outside the model *)
+HasZ(m) == \E k \in 1..Len(Stk(m)) : ZIn(Stk(m)[k])
+ZSafeElems == {"pop", "dup", "swap", "print", "printkeep", "printnonl"}
+ZSafeItem(it) ==
+    CASE it.k = "elem" -> it.name \in ZSafeElems
+      [] it.k = "node" ->
+           \/ it.n.t = "lam"
+           \/ /\ it.n.t \in {"gen", "tok"}
+              /\ \/ it.n.tok.k = "number"
+                 \/ it.n.tok.k = "general" /\ ElemName(it.n.tok.v) \in ZSafeElems
+      [] it.k \in {"iftest", "whiletest"} -> FALSE
+      [] OTHER -> TRUE
+
 ItemStep(m0, it) ==
+    IF HasZ(m0) /\ ~ZSafeItem(it) THEN Undef(m0, "lazy-value-on-stack") ELSE
     CASE it.k = "node" -> NodeStep(m0, it.n)
       [] it.k = "elem" -> Elem(m0, it.name)
       [] it.k = "popcv" -> [m0 EXCEPT !.cvals = Front(@)]
@@ -667,11 +752,14 @@ Finish(m) ==
         text == CASE "W" \in fl -> IF empty THEN Str(VL(<<>>))
                                    ELSE IF \A k \in 1..Len(Stk(m1)) : Printable(Stk(m1)[k]) THEN Str(VL(Append(Stk(m1), o)))
                                    ELSE <<0>>
-                  [] "s" \in fl -> IF IsL(o) THEN (IF IsU(Clean(SumList(o.l))) THEN <<0>> ELSE Str(Clean(SumList(o.l)))) ELSE <<0>>
-                  [] "j" \in fl -> IF IsL(o) THEN JoinNL(o.l) ELSE <<0>>
+                  \* vy_sum / join walk over helpers.iterable(output): digits of a number, characters of a text
+                  [] "s" \in fl -> IF FoldOK(o) THEN (IF IsU(Clean(SumList(FoldItems(o)))) THEN <<0>> ELSE Str(Clean(SumList(FoldItems(o))))) ELSE <<0>>
+                  [] "j" \in fl -> IF FoldOK(o) THEN JoinNL(FoldItems(o)) ELSE <<0>>
                   [] OTHER -> IF Printable(o) THEN Str(o) ELSE <<0>>
     IN IF ~(fl \subseteq {"H", "M", "m", "O", "o", "W", "s", "j"}) THEN Undef(m1, "flag-outside-core")
        ELSE IF IsF(o) /\ fl \cap {"W", "s", "j"} = {}
+       THEN (IF doprint THEN PrintVal(m1, o, NL, <<[k |-> "k_done"]>>) ELSE [m1 EXCEPT !.status = "done"])
+       ELSE IF IsZ(o) /\ fl \cap {"W", "s", "j"} = {}
        THEN (IF doprint THEN PrintVal(m1, o, NL, <<[k |-> "k_done"]>>) ELSE [m1 EXCEPT !.status = "done"])
        ELSE IF text = <<0>> \/ ~Printable(o) THEN Undef(m1, "implicit-output-outside-core")
        ELSE LET m2 == IF "W" \in fl /\ ~empty THEN Push(m1, o) ELSE m1      \* stack.append(output)
